@@ -70,5 +70,8 @@ OutcomeChecks(e) ==
    \* a stream whose layout the generator knows delivers exactly that list
    declaredStream |-> (e.kind = "ok" /\ Len(e.c.decl) > 0) =>
                         (Len(e.outs) = Len(e.c.decl) /\ ~e.finalerr /\ \A k \in 1..Len(e.c.decl) : e.outs[k].nb = e.c.decl[k][1] /\ e.outs[k].len = e.c.decl[k][2]),
+   \* the channel interface of the Phylip stream parser (what the commands read) tells the same story as repeated Parse
+   \* calls: as many alignments, then an error or a clean end of stream
+   channelSame   |-> (e.kind = "ok" /\ "chn" \in DOMAIN e) => (e.chn = Len(e.outs) /\ e.cherr = e.finalerr),
    partitionMap  |-> (e.kind = "ok" /\ e.c.fmt = "partition") => (Len(e.part) = e.c.plen /\ \A i \in 1..Len(e.part) : e.part[i] >= -1)]
 =============================================================================
